@@ -3,7 +3,7 @@
    Model: coq/theories/Copy/{Heap,Model,Obs}.v; proofs: Copy/{Lemmas,Proofs}.v; the side condition on the
    table regenerated from the source: Copy/Current.v. *)
 From Coq Require Import List String Bool Arith Lia.
-From Cobra.Copy Require Import Heap Model Obs Lemmas Proofs Unrepaired Current.
+From Cobra.Copy Require Import Heap Model Obs Lemmas Proofs ModelCopy Unrepaired Current.
 From Cobra.Gen Require CopyTables.
 Import ListNotations.
 Open Scope list_scope.
@@ -75,6 +75,26 @@ Proof.
     apply heap_eqb_eq. exact Hc.
 Qed.
 Print Assumptions C12_copy_separated_partial.
+
+(* One step of that induction is proved: the generic attribute loop of Model.copy applied to one object
+   (`new_x.__dict__[attr] = <copy expression>(value)` for every attribute not in do_not_copy_by_ref) keeps the
+   construction invariant `Inv` (old part untouched, every new cell points only at new cells, the model cell
+   under construction may still hold the by-reference attributes S) whenever the object's table is safe and the
+   object is typed (attributes its class does not initialise with a container hold atoms). *)
+Theorem C12_copy_object_loop :
+  forall T n h0 h m' S kt attrs rel oc h' a',
+    Inv n h0 h m' S -> ktable_safe attrs rel kt = true ->
+    (forall kv s, In kv (citems oc) -> fst kv = At s -> is_atom (snd kv) || is_container (akind_of attrs s) = true) ->
+    copy_obj T kt attrs h oc = (h', a') -> Inv n h0 h' m' S /\ n <= a' /\ a' <> m'.
+Proof. exact copy_obj_inv. Qed.
+Print Assumptions C12_copy_object_loop.
+
+(* settling an attribute of the model under construction by an explicit assignment *)
+Theorem C12_explicit_assignment_settles :
+  forall n h0 h m' S s v, Inv n h0 h m' S -> val_ok n v ->
+    Inv n h0 (set_attr h m' s v) m' (remove string_dec s S).
+Proof. exact inv_settle. Qed.
+Print Assumptions C12_explicit_assignment_settles.
 
 Theorem C12_certificate_sound :
   forall h0 hp a b, sep_cert_b h0 hp = true -> a < List.length h0 -> List.length h0 <= b -> Separated hp a b.
